@@ -310,6 +310,9 @@ pub fn build(quick: bool) -> Vec<Scenario> {
             v.push(mk::<M>(off, &[1, 1], cons, false).bound(d));
         }
         if off != 0 {
+            // len / is_empty right after a pop, while the push that closes the block is still in flight
+            v.push(mk::<M>(off, &[1, 1], "PLE", false).bound(d));
+            v.push(mk::<M>(off, &[2], "PLPE", false).bound(d));
             v.push(mk::<M>(off, &[2, 1], "PB", false).bound(if quick { 2 } else { 3 }));
             v.push(mk::<M>(off, &[2, 1], "BP", true).bound(2));
         }
@@ -328,6 +331,9 @@ pub fn build(quick: bool) -> Vec<Scenario> {
             v.push(mk::<S>(off, &[3], cons, false).bound(d + 1));
         }
         v.push(mk::<S>(off, &[3], "P", true).bound(d + 1));
+        if off != 0 {
+            v.push(mk::<S>(off, &[2], "PLPE", false).bound(d + 1));
+        }
     }
     // a lagging consumer: the queue holds one to two blocks when the window opens, the bulk_pop ends at a block boundary
     // while the producer finishes its tail block (spsc: takes a consumed block back from the node cache)
